@@ -68,7 +68,7 @@ NodeOfNative(o) ==
             \/ ~Is(Get(o, "sketch_name"), "str") \/ ~Is(Get(o, "sketch_version"), "str")
             \/ ~Is(Get(o, "battery_level"), "int") \/ ~Is(Get(o, "heartbeat"), "int") \/ ~Is(Get(o, "sleeping"), "bool")
          THEN Gray
-    ELSE IF Get(o, "node_id").v \notin 0..255 \/ Get(o, "battery_level").v \notin 0..100 THEN Gray
+    ELSE IF Get(o, "node_id").v \notin 0..255 THEN Gray
     ELSE LET ch == ChildrenOf(Get(o, "children"), "child_id", "child_type") IN
          IF ~ch.ok THEN Gray
          ELSE [ok |-> TRUE, id |-> Get(o, "node_id").v,
@@ -88,7 +88,7 @@ NodeOfLegacy(o) ==
             \/ ~StrOrNull(Get(o, "sketch_name")) \/ ~StrOrNull(Get(o, "sketch_version"))
             \/ ~Is(Get(o, "battery_level"), "int") \/ ~Is(Get(o, "heartbeat"), "int")
          THEN Gray
-    ELSE IF Get(o, "sensor_id").v \notin 0..255 \/ Get(o, "battery_level").v \notin 0..100 THEN Gray
+    ELSE IF Get(o, "sensor_id").v \notin 0..255 THEN Gray
     ELSE LET ch == ChildrenOf(Get(o, "children"), "id", "type") IN
          IF ~ch.ok THEN Gray
          ELSE [ok |-> TRUE, id |-> Get(o, "sensor_id").v,
@@ -110,7 +110,8 @@ RegistryOf(file, NodeOf(_)) ==
 Denote(file)       == RegistryOf(file, NodeOfNative)
 DenoteLegacy(file) == RegistryOf(file, NodeOfLegacy)
 
-(* what the load validators declare (C13: every registry the handlers can produce must pass) *)
+(* what the load validators of the current implementation declare; informational (used by the        *)
+(* composition check "every registry the handlers can produce passes them", not by the round-trip verdict) *)
 LoadAccepts(nodes) ==
     \A n \in DOMAIN nodes : n \in 0..255 /\ nodes[n].bat \in 0..100
 
